@@ -226,6 +226,52 @@ def linkNameIn (cur : Str) : Entity → Str
   | .routine p n => p ++ "._llgo_routine$".toList ++ natStr n
   | e => declName e.pkg e
 
+/-! ### the two variants of naming go/ssa's package-less synthetic functions -/
+
+/-- Which `ssa.FuncName` is live. `qualifyRecv = false`: the tree as pinned (receiver rendered by `abi.NamedName` alone).
+    `qualifyRecv = true`: with `fixes/C14-1.diff` — the receiver keeps the scope indices of a function-local type, and the
+    declaring package of a type that does not belong to the package the name is prefixed with (`(path.T)`, `(*path.T)`). -/
+structure Cfg where
+  qualifyRecv : Bool
+  deriving DecidableEq, Repr
+
+def Cfg.legacy : Cfg := ⟨false⟩
+def Cfg.fixed : Cfg := ⟨true⟩
+
+/-- receiver of a synthetic function: a `Recv` plus the scope path of a function-local receiver type
+    (local types have no declared methods, only promoted ones, i.e. wrappers) -/
+structure WRecv where
+  pkg : Str
+  name : Str
+  targs : Tys
+  scope : List Nat
+  ptr : Bool
+
+def Recv.toW (r : Recv) : WRecv := ⟨r.pkg, r.name, r.targs, [], r.ptr⟩
+
+/-- `ssa.FuncName(cur, name, recv, false)` for a named receiver, in both variants -/
+def wrapperName (cfg : Cfg) (cur : Str) (name : Str) (r : WRecv) : Str :=
+  let t := namedName r.name r.targs
+  let t := if cfg.qualifyRecv then t ++ scopeStr r.scope else t
+  let foreign := cfg.qualifyRecv && pathOf r.pkg != pathOf cur
+  let t := if foreign then pathOf r.pkg ++ '.' :: t else t
+  let t := if r.ptr then '(' :: '*' :: t ++ [')'] else if foreign then '(' :: t ++ [')'] else t
+  pathOf cur ++ '.' :: (t ++ '.' :: name)
+
+/-- name of a synthetic function (receiver `rc`, go/ssa name `name`) while `cur` is compiled -/
+def synthName (cfg : Cfg) (cur : Str) (name : Str) (rc : Option Recv) : Str :=
+  match rc with
+  | some r => wrapperName cfg cur name r.toW
+  | none => pathOf cur ++ '.' :: name
+
+/-- `linkNameIn` under a naming variant: only `bound` / `thunk` / `wrapper` (and stubs of them) differ -/
+def linkNameInC (cfg : Cfg) (cur : Str) : Entity → Str
+  | .bound m => synthName cfg cur (m.baseName ++ "$bound".toList) m.recv
+  | .thunk m => synthName cfg cur (m.baseName ++ "$thunk".toList) m.recv
+  | .wrapper m => synthName cfg cur m.baseName m.recv
+  | .stub e => "__llgo_stub.".toList ++ linkNameInC cfg cur e
+  | e => linkNameIn cur e
+
 /-- the name seen from the declaring package (what the proved theorems talk about) -/
 def linkName (e : Entity) : Str := linkNameIn e.pkg e
 
@@ -250,6 +296,16 @@ def LinkTable.lookup (t : LinkTable) (k : Str) : Option Str :=
   | (k', v) :: r => match LinkTable.lookup r k with
     | some v' => some v'
     | none => if k' = k then some v else none
+
+/-- `symbolIn` under a naming variant -/
+def symbolInC (cfg : Cfg) (t : LinkTable) (cur : Str) (e : Entity) : Str :=
+  match t.lookup (origName e) with
+  | some v =>
+    if "C.".toList.isPrefixOf v then v.drop 2
+    else if "py.".toList.isPrefixOf v then v.drop 3
+    else if "llgo.".toList.isPrefixOf v then v.drop 5
+    else v
+  | none => linkNameInC cfg cur e
 
 /-- symbol a function reference resolves to: `(*context).funcName` with the linkname table consulted first -/
 def symbolIn (t : LinkTable) (cur : Str) (e : Entity) : Str :=
